@@ -79,6 +79,9 @@ def units(tier, seed):
     for m in range(1, 13):
         us.append({"kind": "m2d", "years": years, "month": m, "tier": tier})
     us.append({"kind": "guards"})
+    # groups of very different magnitude (a group sum must not depend on what was summed before it)
+    for g in (2, 3, 4):
+        us.append({"kind": "aggmag", "ngroups": g})
     # size classes beyond the exhaustive bound: structured series with the same per-run reference
     # size ladder around powers of two (typical thresholds of blocked / vectorised code paths)
     ladder = [7, 8, 9, 15, 16, 17, 31, 32, 33, 63, 64, 65, 100, 127, 128, 129, 255, 256, 257, 511, 512, 513,
@@ -530,8 +533,36 @@ def check_layouts(ctx, dutils, runs, vals, case_base):
                                       fname, lname, o[:8].tolist(), refv[:8].tolist()))
 
 
+MAGS = [1e16, 3e9, 1.0, 1.1e-4, 1e-12]
+
+
+def run_aggmag(unit, ctx):
+    """every assignment of a magnitude to each of g groups (positive, non-dyadic values inside a group) x three
+    run-length patterns; judged by the exact per-group reference like every other aggregation case"""
+    from hydrodiy.data import dutils
+    g = unit["ngroups"]
+    first = True
+    for runs in ([1] * g, [2] * g, [(3, 1, 2, 3)[k] for k in range(g)]):
+        for mags in itertools.product(MAGS, repeat=g):
+            if len(set(mags)) == 1:
+                continue
+            vals = []
+            for m, r in zip(mags, runs):
+                vals += [m * (1 + 0.1 * j) for j in range(r)]
+            groups = ref_groups(runs, vals)
+            cb = {"kind": "agg", "runs": list(runs), "scheme": [199501, 1], "vals": vals}
+            if first:
+                ctx.case(False, n=0, sample=cb)
+                first = False
+            ctx.count("aggmag.cases")
+            check_agg_case(ctx, dutils, list(runs), (199501, 1), vals, groups, cb)
+
+
 def run_unit(unit, ctx):
     k = unit["kind"]
+    if k == "aggmag":
+        run_aggmag(unit, ctx)
+        return
     if k == "aggladder":
         for n in unit["ns"]:
             for runlen in ((3,) if unit.get("dense") else (1, 3, 31)):
